@@ -349,6 +349,10 @@ func (w *World) doRawEntry() {
 	}
 	if !handBuilt {
 		tmpl := &entry.Entry{LogID: w.LogID, Payload: pl, Next: next, Refs: refs, Clock: entry.NewLamportClock(n.W.ID.PublicKey, clockT)}
+		if picks[10]%4 == 0 {
+			tmpl.V = uint64(picks[10] / 4 % 3) // whatever version the template carries (a copy of an old entry): the entry API writes the current one
+			r.Probe("template-with-version")
+		}
 		if picks[5]%5 == 0 {
 			tmpl.Clock = nil // the entry API then gives the default clock: the writer's key at time 0
 			r.Probe("entry-with-default-clock")
